@@ -495,7 +495,8 @@ def match_known(prop, cls, msg, scenario=None, flavour=None, plan_lines=None):
     for k in load_known_findings():
         if k.get('status') != 'known': continue
         if k.get('property') != prop: continue
-        if k.get('class') and k['class'] != cls: continue
+        if not k.get('class'): continue          # entries keyed only by a scenario-noted key never excuse a hard violation
+        if k['class'] != cls: continue
         if k.get('scenario') and scenario and k['scenario'] != scenario: continue
         if k.get('msg_regex') and not re.search(k['msg_regex'], msg or ''): continue
         if k.get('flavour') and flavour and k['flavour'] != flavour: continue
